@@ -13,18 +13,18 @@ import (
 )
 
 type model struct {
-	retAlias   []int // result 0 aliases the direct objects of these args
-	retDeep    []int // result 0 may alias memory inside these args (loaded from them)
-	retFresh   bool  // pointer-bearing results are fresh memory
-	freshHolds []int // the fresh result keeps references to the direct objects of these args
-	mutElems   []int // writes the elements / pointee of these args
-	mutInside  []int // writes bookkeeping cells inside these args (cursor etc.)
+	retAlias    []int // result 0 aliases the direct objects of these args
+	retDeep     []int // result 0 may alias memory inside these args (loaded from them)
+	retFresh    bool  // pointer-bearing results are fresh memory
+	freshHolds  []int // the fresh result keeps references to the direct objects of these args
+	mutElems    []int // writes the elements / pointee of these args
+	mutInside   []int // writes bookkeeping cells inside these args (cursor etc.)
 	insideCells []types.Type
-	callsFunc  []int // function-valued args that are invoked
-	sortIface  int   // arg index+1 whose sort.Interface methods are invoked (0 = none)
-	storeInto  [][2]int // {a,b}: memory of arg a now references the objects of arg b
-	pure       bool
-	formats    []int // fmt-style operands (variadic slice arg index)
+	callsFunc   []int    // function-valued args that are invoked
+	sortIface   int      // arg index+1 whose sort.Interface methods are invoked (0 = none)
+	storeInto   [][2]int // {a,b}: memory of arg a now references the objects of arg b
+	pure        bool
+	formats     []int // fmt-style operands (variadic slice arg index)
 }
 
 var (
@@ -54,23 +54,23 @@ var modelTable = map[string]*model{
 	uioL + "Append":  {retDeep: []int{0}, mutInside: []int{0}, insideCells: lexWrite},
 	uioB + "WriteN":  {retDeep: []int{0}, mutInside: []int{0}, insideCells: lexWrite},
 	// --- copy producers
-	uioL + "CopyN":   {retFresh: true, mutInside: []int{0}, insideCells: lexRead},
-	uioL + "ReadAll": {retFresh: true, mutInside: []int{0}, insideCells: lexRead},
-	uioL + "Read8":   {mutInside: []int{0}, insideCells: lexRead},
-	uioL + "Read16":  {mutInside: []int{0}, insideCells: lexRead},
-	uioL + "Read32":  {mutInside: []int{0}, insideCells: lexRead},
-	uioL + "Read64":  {mutInside: []int{0}, insideCells: lexRead},
+	uioL + "CopyN":     {retFresh: true, mutInside: []int{0}, insideCells: lexRead},
+	uioL + "ReadAll":   {retFresh: true, mutInside: []int{0}, insideCells: lexRead},
+	uioL + "Read8":     {mutInside: []int{0}, insideCells: lexRead},
+	uioL + "Read16":    {mutInside: []int{0}, insideCells: lexRead},
+	uioL + "Read32":    {mutInside: []int{0}, insideCells: lexRead},
+	uioL + "Read64":    {mutInside: []int{0}, insideCells: lexRead},
 	uioL + "ReadBytes": {mutInside: []int{0}, insideCells: lexRead, mutElems: []int{1}},
 	uioL + "Read":      {mutInside: []int{0}, insideCells: lexRead, mutElems: []int{1}, retFresh: true},
 	// --- writers (copy their operand into the Lexer's own buffer)
-	uioL + "Write8":     {mutInside: []int{0}, insideCells: lexWrite},
-	uioL + "Write16":    {mutInside: []int{0}, insideCells: lexWrite},
-	uioL + "Write32":    {mutInside: []int{0}, insideCells: lexWrite},
-	uioL + "Write64":    {mutInside: []int{0}, insideCells: lexWrite},
-	uioL + "WriteBytes": {mutInside: []int{0}, insideCells: lexWrite},
-	uioL + "Write":      {mutInside: []int{0}, insideCells: lexWrite, retFresh: true},
-	uioL + "WriteData":  {mutInside: []int{0}, insideCells: lexWrite},
-	uioL + "Align":      {mutInside: []int{0}, insideCells: lexWrite},
+	uioL + "Write8":      {mutInside: []int{0}, insideCells: lexWrite},
+	uioL + "Write16":     {mutInside: []int{0}, insideCells: lexWrite},
+	uioL + "Write32":     {mutInside: []int{0}, insideCells: lexWrite},
+	uioL + "Write64":     {mutInside: []int{0}, insideCells: lexWrite},
+	uioL + "WriteBytes":  {mutInside: []int{0}, insideCells: lexWrite},
+	uioL + "Write":       {mutInside: []int{0}, insideCells: lexWrite, retFresh: true},
+	uioL + "WriteData":   {mutInside: []int{0}, insideCells: lexWrite},
+	uioL + "Align":       {mutInside: []int{0}, insideCells: lexWrite},
 	uioB + "Preallocate": {mutInside: []int{0}, insideCells: lexWrite},
 	// --- status
 	uioL + "Error":    {retFresh: true},
@@ -80,85 +80,85 @@ var modelTable = map[string]*model{
 	uioB + "Cap":      {pure: true},
 
 	// --- net
-	"(net.IP).To4":              {retAlias: []int{0}},
-	"(net.IP).To16":             {retAlias: []int{0}, retFresh: true},
-	"(net.IP).Mask":             {retFresh: true},
-	"(net.IP).Equal":            {pure: true},
-	"(net.IP).IsUnspecified":    {pure: true},
-	"(net.IP).IsLoopback":       {pure: true},
-	"(net.IP).IsMulticast":      {pure: true},
+	"(net.IP).To4":                {retAlias: []int{0}},
+	"(net.IP).To16":               {retAlias: []int{0}, retFresh: true},
+	"(net.IP).Mask":               {retFresh: true},
+	"(net.IP).Equal":              {pure: true},
+	"(net.IP).IsUnspecified":      {pure: true},
+	"(net.IP).IsLoopback":         {pure: true},
+	"(net.IP).IsMulticast":        {pure: true},
 	"(net.IP).IsLinkLocalUnicast": {pure: true},
-	"(net.IP).IsGlobalUnicast":  {pure: true},
-	"(net.IP).DefaultMask":      {retFresh: true},
-	"(net.IP).MarshalText":      {retFresh: true},
-	"net.IPv4":                  {retFresh: true},
-	"net.CIDRMask":              {retFresh: true},
-	"net.IPv4Mask":              {retFresh: true},
-	"net.ParseIP":               {retFresh: true},
-	"net.ParseMAC":              {retFresh: true},
-	"net.ParseCIDR":             {retFresh: true},
-	"(net.IPMask).Size":         {pure: true},
-	"(*net.IPNet).Contains":     {pure: true},
-	"net.InterfaceByName":       {retFresh: true},
-	"net.InterfaceByIndex":      {retFresh: true},
-	"net.Interfaces":            {retFresh: true},
-	"(*net.Interface).Addrs":    {retFresh: true},
-	"net.JoinHostPort":          {pure: true},
-	"net.SplitHostPort":         {pure: true},
-	"net.ResolveUDPAddr":        {retFresh: true},
-	"net.ListenUDP":             {retFresh: true},
-	"net.DialUDP":               {retFresh: true},
-	"(*net.UDPAddr).String":     {pure: true},
+	"(net.IP).IsGlobalUnicast":    {pure: true},
+	"(net.IP).DefaultMask":        {retFresh: true},
+	"(net.IP).MarshalText":        {retFresh: true},
+	"net.IPv4":                    {retFresh: true},
+	"net.CIDRMask":                {retFresh: true},
+	"net.IPv4Mask":                {retFresh: true},
+	"net.ParseIP":                 {retFresh: true},
+	"net.ParseMAC":                {retFresh: true},
+	"net.ParseCIDR":               {retFresh: true},
+	"(net.IPMask).Size":           {pure: true},
+	"(*net.IPNet).Contains":       {pure: true},
+	"net.InterfaceByName":         {retFresh: true},
+	"net.InterfaceByIndex":        {retFresh: true},
+	"net.Interfaces":              {retFresh: true},
+	"(*net.Interface).Addrs":      {retFresh: true},
+	"net.JoinHostPort":            {pure: true},
+	"net.SplitHostPort":           {pure: true},
+	"net.ResolveUDPAddr":          {retFresh: true},
+	"net.ListenUDP":               {retFresh: true},
+	"net.DialUDP":                 {retFresh: true},
+	"(*net.UDPAddr).String":       {pure: true},
 
 	// --- bytes / strings / encoding
-	"bytes.Equal":      {pure: true},
-	"bytes.Compare":    {pure: true},
-	"bytes.IndexByte":  {pure: true},
-	"bytes.Index":      {pure: true},
-	"bytes.Contains":   {pure: true},
-	"bytes.HasPrefix":  {pure: true},
-	"bytes.HasSuffix":  {pure: true},
-	"bytes.Split":      {retFresh: true, freshHolds: []int{0}},
-	"bytes.TrimRight":  {retAlias: []int{0}},
-	"bytes.TrimLeft":   {retAlias: []int{0}},
-	"bytes.Trim":       {retAlias: []int{0}},
-	"bytes.TrimSpace":  {retAlias: []int{0}},
-	"bytes.TrimSuffix": {retAlias: []int{0}},
-	"bytes.TrimPrefix": {retAlias: []int{0}},
-	"bytes.Repeat":     {retFresh: true},
-	"bytes.Join":       {retFresh: true},
-	"bytes.ToLower":    {retFresh: true},
-	"bytes.ToUpper":    {retFresh: true},
-	"bytes.NewBuffer":  {retFresh: true, freshHolds: []int{0}},
-	"bytes.NewReader":  {retFresh: true, freshHolds: []int{0}},
-	"(*bytes.Buffer).Bytes":       {retDeep: []int{0}},
-	"(*bytes.Buffer).String":      {pure: true},
-	"(*bytes.Buffer).Len":         {pure: true},
-	"(*bytes.Buffer).Write":       {mutInside: []int{0}, insideCells: lexWrite, retFresh: true},
-	"(*bytes.Buffer).WriteByte":   {mutInside: []int{0}, insideCells: lexWrite, retFresh: true},
-	"(*bytes.Buffer).WriteString": {mutInside: []int{0}, insideCells: lexWrite, retFresh: true},
-	"(*strings.Builder).WriteString": {mutInside: []int{0}, insideCells: lexWrite, retFresh: true},
-	"(*strings.Builder).WriteByte":   {mutInside: []int{0}, insideCells: lexWrite, retFresh: true},
-	"(*strings.Builder).WriteRune":   {mutInside: []int{0}, insideCells: lexWrite, retFresh: true},
-	"(*strings.Builder).Write":       {mutInside: []int{0}, insideCells: lexWrite, retFresh: true},
-	"(*strings.Builder).String":      {pure: true},
-	"(*strings.Builder).Len":         {pure: true},
-	"(*strings.Builder).Grow":        {mutInside: []int{0}, insideCells: lexWrite},
-	"encoding/hex.EncodeToString":    {pure: true},
-	"encoding/hex.DecodeString":      {retFresh: true},
-	"encoding/hex.Dump":              {pure: true},
-	"(encoding/binary.bigEndian).Uint16":    {pure: true},
-	"(encoding/binary.bigEndian).Uint32":    {pure: true},
-	"(encoding/binary.bigEndian).Uint64":    {pure: true},
-	"(encoding/binary.bigEndian).PutUint16": {mutElems: []int{1}},
-	"(encoding/binary.bigEndian).PutUint32": {mutElems: []int{1}},
-	"(encoding/binary.bigEndian).PutUint64": {mutElems: []int{1}},
+	"bytes.Equal":                              {pure: true},
+	"bytes.Compare":                            {pure: true},
+	"bytes.IndexByte":                          {pure: true},
+	"bytes.Index":                              {pure: true},
+	"bytes.Contains":                           {pure: true},
+	"bytes.HasPrefix":                          {pure: true},
+	"bytes.HasSuffix":                          {pure: true},
+	"bytes.Split":                              {retFresh: true, freshHolds: []int{0}},
+	"bytes.TrimRight":                          {retAlias: []int{0}},
+	"bytes.TrimLeft":                           {retAlias: []int{0}},
+	"bytes.Trim":                               {retAlias: []int{0}},
+	"bytes.TrimSpace":                          {retAlias: []int{0}},
+	"bytes.TrimSuffix":                         {retAlias: []int{0}},
+	"bytes.TrimPrefix":                         {retAlias: []int{0}},
+	"bytes.Repeat":                             {retFresh: true},
+	"bytes.Join":                               {retFresh: true},
+	"bytes.ToLower":                            {retFresh: true},
+	"bytes.ToUpper":                            {retFresh: true},
+	"bytes.NewBuffer":                          {retFresh: true, freshHolds: []int{0}},
+	"bytes.NewReader":                          {retFresh: true, freshHolds: []int{0}},
+	"(*bytes.Buffer).Bytes":                    {retDeep: []int{0}},
+	"(*bytes.Buffer).String":                   {pure: true},
+	"(*bytes.Buffer).Len":                      {pure: true},
+	"(*bytes.Buffer).Write":                    {mutInside: []int{0}, insideCells: lexWrite, retFresh: true},
+	"(*bytes.Buffer).WriteByte":                {mutInside: []int{0}, insideCells: lexWrite, retFresh: true},
+	"(*bytes.Buffer).WriteString":              {mutInside: []int{0}, insideCells: lexWrite, retFresh: true},
+	"(*strings.Builder).WriteString":           {mutInside: []int{0}, insideCells: lexWrite, retFresh: true},
+	"(*strings.Builder).WriteByte":             {mutInside: []int{0}, insideCells: lexWrite, retFresh: true},
+	"(*strings.Builder).WriteRune":             {mutInside: []int{0}, insideCells: lexWrite, retFresh: true},
+	"(*strings.Builder).Write":                 {mutInside: []int{0}, insideCells: lexWrite, retFresh: true},
+	"(*strings.Builder).String":                {pure: true},
+	"(*strings.Builder).Len":                   {pure: true},
+	"(*strings.Builder).Grow":                  {mutInside: []int{0}, insideCells: lexWrite},
+	"encoding/hex.EncodeToString":              {pure: true},
+	"encoding/hex.DecodeString":                {retFresh: true},
+	"encoding/hex.Dump":                        {pure: true},
+	"(encoding/binary.bigEndian).Uint16":       {pure: true},
+	"(encoding/binary.bigEndian).Uint32":       {pure: true},
+	"(encoding/binary.bigEndian).Uint64":       {pure: true},
+	"(encoding/binary.bigEndian).PutUint16":    {mutElems: []int{1}},
+	"(encoding/binary.bigEndian).PutUint32":    {mutElems: []int{1}},
+	"(encoding/binary.bigEndian).PutUint64":    {mutElems: []int{1}},
 	"(encoding/binary.littleEndian).Uint16":    {pure: true},
 	"(encoding/binary.littleEndian).Uint32":    {pure: true},
 	"(encoding/binary.littleEndian).PutUint16": {mutElems: []int{1}},
 	"(encoding/binary.littleEndian).PutUint32": {mutElems: []int{1}},
-	"encoding/binary.Write": {retFresh: true}, // used with *bytes.Buffer targets only (client4)
-	"encoding/binary.Read":  {retFresh: true, mutElems: []int{2}},
+	"encoding/binary.Write":                    {retFresh: true}, // used with *bytes.Buffer targets only (client4)
+	"encoding/binary.Read":                     {retFresh: true, mutElems: []int{2}},
 
 	// --- sort
 	"sort.Slice":       {mutElems: []int{0}, callsFunc: []int{1}},
@@ -173,27 +173,27 @@ var modelTable = map[string]*model{
 
 	// --- fmt / errors / misc: formatting calls String/Error/Format of operands; those
 	// methods of module types are C20 roots in their own right (modular argument)
-	"fmt.Sprintf":  {pure: true, formats: []int{1}},
-	"fmt.Sprint":   {pure: true, formats: []int{0}},
-	"fmt.Sprintln": {pure: true, formats: []int{0}},
-	"fmt.Errorf":   {retFresh: true, formats: []int{1}},
-	"fmt.Printf":   {retFresh: true, formats: []int{1}},
-	"fmt.Println":  {retFresh: true, formats: []int{0}},
-	"fmt.Print":    {retFresh: true, formats: []int{0}},
-	"fmt.Fprintf":  {retFresh: true, formats: []int{2}, mutInside: []int{0}, insideCells: lexWrite},
-	"fmt.Fprint":   {retFresh: true, formats: []int{1}, mutInside: []int{0}, insideCells: lexWrite},
-	"fmt.Fprintln": {retFresh: true, formats: []int{1}, mutInside: []int{0}, insideCells: lexWrite},
-	"log.Printf":   {pure: true, formats: []int{1}},
-	"log.Print":    {pure: true, formats: []int{0}},
-	"log.Println":  {pure: true, formats: []int{0}},
-	"(*log.Logger).Printf":  {pure: true, formats: []int{2}},
-	"(*log.Logger).Print":   {pure: true, formats: []int{1}},
-	"(*log.Logger).Println": {pure: true, formats: []int{1}},
-	"errors.New":    {retFresh: true},
-	"errors.Is":     {pure: true},
-	"errors.As":     {mutElems: []int{1}},
-	"errors.Unwrap": {retDeep: []int{0}},
-	"crypto/rand.Read": {mutElems: []int{0}, retFresh: true},
+	"fmt.Sprintf":                            {pure: true, formats: []int{1}},
+	"fmt.Sprint":                             {pure: true, formats: []int{0}},
+	"fmt.Sprintln":                           {pure: true, formats: []int{0}},
+	"fmt.Errorf":                             {retFresh: true, formats: []int{1}},
+	"fmt.Printf":                             {retFresh: true, formats: []int{1}},
+	"fmt.Println":                            {retFresh: true, formats: []int{0}},
+	"fmt.Print":                              {retFresh: true, formats: []int{0}},
+	"fmt.Fprintf":                            {retFresh: true, formats: []int{2}, mutInside: []int{0}, insideCells: lexWrite},
+	"fmt.Fprint":                             {retFresh: true, formats: []int{1}, mutInside: []int{0}, insideCells: lexWrite},
+	"fmt.Fprintln":                           {retFresh: true, formats: []int{1}, mutInside: []int{0}, insideCells: lexWrite},
+	"log.Printf":                             {pure: true, formats: []int{1}},
+	"log.Print":                              {pure: true, formats: []int{0}},
+	"log.Println":                            {pure: true, formats: []int{0}},
+	"(*log.Logger).Printf":                   {pure: true, formats: []int{2}},
+	"(*log.Logger).Print":                    {pure: true, formats: []int{1}},
+	"(*log.Logger).Println":                  {pure: true, formats: []int{1}},
+	"errors.New":                             {retFresh: true},
+	"errors.Is":                              {pure: true},
+	"errors.As":                              {mutElems: []int{1}},
+	"errors.Unwrap":                          {retDeep: []int{0}},
+	"crypto/rand.Read":                       {mutElems: []int{0}, retFresh: true},
 	"github.com/u-root/uio/rand.Read":        {mutElems: []int{0}, retFresh: true},
 	"github.com/u-root/uio/rand.ReadContext": {mutElems: []int{1}, retFresh: true},
 	// compiled regular expressions are read-only for matching (internal machine pools are not part of any input)
@@ -203,69 +203,69 @@ var modelTable = map[string]*model{
 	"(*regexp.Regexp).FindString":         {pure: true},
 	"regexp.MustCompile":                  {retFresh: true},
 	"regexp.Compile":                      {retFresh: true},
-	"math/rand.Read":   {mutElems: []int{0}, retFresh: true},
-	"time.Now":         {pure: true},
-	"time.Since":       {pure: true},
-	"time.After":       {retFresh: true},
-	"time.NewTimer":    {retFresh: true},
-	"time.Unix":        {pure: true},
-	"time.Date":        {pure: true},
-	"(time.Time).Sub":  {pure: true},
-	"(time.Time).Add":  {pure: true},
-	"(time.Time).Unix": {pure: true},
-	"(time.Time).Before": {pure: true},
-	"(time.Time).After":  {pure: true},
-	"(time.Duration).Seconds": {pure: true},
-	"(time.Duration).Round":   {pure: true},
-	"os.Hostname":  {pure: true},
-	"os.Getenv":    {pure: true},
-	"context.WithTimeout":  {retFresh: true, freshHolds: []int{0}},
-	"context.WithCancel":   {retFresh: true, freshHolds: []int{0}},
-	"context.WithDeadline": {retFresh: true, freshHolds: []int{0}},
-	"context.Background":   {retFresh: true},
-	"context.TODO":         {retFresh: true},
-	"(*sync.Mutex).Lock":     {mutElems: []int{0}},
-	"(*sync.Mutex).Unlock":   {mutElems: []int{0}},
-	"(*sync.RWMutex).Lock":   {mutElems: []int{0}},
-	"(*sync.RWMutex).Unlock": {mutElems: []int{0}},
-	"(*sync.RWMutex).RLock":   {mutElems: []int{0}},
-	"(*sync.RWMutex).RUnlock": {mutElems: []int{0}},
-	"(*sync.WaitGroup).Add":  {mutElems: []int{0}},
-	"(*sync.WaitGroup).Done": {mutElems: []int{0}},
-	"(*sync.WaitGroup).Wait": {mutElems: []int{0}},
-	"sync/atomic.CompareAndSwapUint32": {mutElems: []int{0}},
-	"sync/atomic.LoadUint32":           {pure: true},
-	"sync/atomic.StoreUint32":          {mutElems: []int{0}},
-	"sync/atomic.AddUint32":            {mutElems: []int{0}},
+	"math/rand.Read":                      {mutElems: []int{0}, retFresh: true},
+	"time.Now":                            {pure: true},
+	"time.Since":                          {pure: true},
+	"time.After":                          {retFresh: true},
+	"time.NewTimer":                       {retFresh: true},
+	"time.Unix":                           {pure: true},
+	"time.Date":                           {pure: true},
+	"(time.Time).Sub":                     {pure: true},
+	"(time.Time).Add":                     {pure: true},
+	"(time.Time).Unix":                    {pure: true},
+	"(time.Time).Before":                  {pure: true},
+	"(time.Time).After":                   {pure: true},
+	"(time.Duration).Seconds":             {pure: true},
+	"(time.Duration).Round":               {pure: true},
+	"os.Hostname":                         {pure: true},
+	"os.Getenv":                           {pure: true},
+	"context.WithTimeout":                 {retFresh: true, freshHolds: []int{0}},
+	"context.WithCancel":                  {retFresh: true, freshHolds: []int{0}},
+	"context.WithDeadline":                {retFresh: true, freshHolds: []int{0}},
+	"context.Background":                  {retFresh: true},
+	"context.TODO":                        {retFresh: true},
+	"(*sync.Mutex).Lock":                  {mutElems: []int{0}},
+	"(*sync.Mutex).Unlock":                {mutElems: []int{0}},
+	"(*sync.RWMutex).Lock":                {mutElems: []int{0}},
+	"(*sync.RWMutex).Unlock":              {mutElems: []int{0}},
+	"(*sync.RWMutex).RLock":               {mutElems: []int{0}},
+	"(*sync.RWMutex).RUnlock":             {mutElems: []int{0}},
+	"(*sync.WaitGroup).Add":               {mutElems: []int{0}},
+	"(*sync.WaitGroup).Done":              {mutElems: []int{0}},
+	"(*sync.WaitGroup).Wait":              {mutElems: []int{0}},
+	"sync/atomic.CompareAndSwapUint32":    {mutElems: []int{0}},
+	"sync/atomic.LoadUint32":              {pure: true},
+	"sync/atomic.StoreUint32":             {mutElems: []int{0}},
+	"sync/atomic.AddUint32":               {mutElems: []int{0}},
 }
 
 // externalInvokeModels: interface methods whose implementations live outside
 // the analysed scope.
 var externalInvokeModels = map[string]*model{
-	"net.PacketConn.ReadFrom":  {mutElems: []int{1}, retFresh: true},
-	"net.PacketConn.WriteTo":   {retFresh: true},
-	"net.PacketConn.Close":     {retFresh: true},
-	"net.PacketConn.LocalAddr": {retFresh: true},
-	"net.PacketConn.SetDeadline":      {retFresh: true},
-	"net.PacketConn.SetReadDeadline":  {retFresh: true},
-	"net.PacketConn.SetWriteDeadline": {retFresh: true},
-	"net.Addr.String":          {pure: true},
-	"net.Addr.Network":         {pure: true},
-	"error.Error":              {pure: true},
-	"fmt.Stringer.String":      {pure: true},
-	"context.Context.Done":     {retFresh: true},
-	"context.Context.Err":      {retFresh: true},
-	"context.Context.Deadline": {pure: true},
-	"context.Context.Value":    {retFresh: true},
-	"io.Writer.Write":          {retFresh: true},
-	"io.Reader.Read":           {mutElems: []int{1}, retFresh: true},
+	"net.PacketConn.ReadFrom":             {mutElems: []int{1}, retFresh: true},
+	"net.PacketConn.WriteTo":              {retFresh: true},
+	"net.PacketConn.Close":                {retFresh: true},
+	"net.PacketConn.LocalAddr":            {retFresh: true},
+	"net.PacketConn.SetDeadline":          {retFresh: true},
+	"net.PacketConn.SetReadDeadline":      {retFresh: true},
+	"net.PacketConn.SetWriteDeadline":     {retFresh: true},
+	"net.Addr.String":                     {pure: true},
+	"net.Addr.Network":                    {pure: true},
+	"error.Error":                         {pure: true},
+	"fmt.Stringer.String":                 {pure: true},
+	"context.Context.Done":                {retFresh: true},
+	"context.Context.Err":                 {retFresh: true},
+	"context.Context.Deadline":            {pure: true},
+	"context.Context.Value":               {retFresh: true},
+	"io.Writer.Write":                     {retFresh: true},
+	"io.Reader.Read":                      {mutElems: []int{1}, retFresh: true},
 	"encoding/binary.ByteOrder.Uint16":    {pure: true},
 	"encoding/binary.ByteOrder.Uint32":    {pure: true},
 	"encoding/binary.ByteOrder.PutUint16": {mutElems: []int{1}},
 	"encoding/binary.ByteOrder.PutUint32": {mutElems: []int{1}},
-	"sort.Interface.Len":  {pure: true},
-	"sort.Interface.Less": {pure: true},
-	"sort.Interface.Swap": {mutElems: []int{0}},
+	"sort.Interface.Len":                  {pure: true},
+	"sort.Interface.Less":                 {pure: true},
+	"sort.Interface.Swap":                 {mutElems: []int{0}},
 }
 
 // packages whose package-level functions only read their operands and return
